@@ -250,13 +250,24 @@ impl Walrus {
                     }
                 }
             } else {
-                // No persisted tail; init at current active block start
-                persisted_tail = Some((active_block.id, 0));
+                // No persisted tail loaded in this call: start from the progress already made in
+                // this block (in-memory tail offset), not from its beginning. Persisting offset 0
+                // here would rewind the durable cursor on every tail read and leave it rewound
+                // whenever the poll finds nothing new.
+                let start_off = if tail_snapshot.0 == active_block.id {
+                    tail_snapshot.1
+                } else {
+                    0
+                };
+                persisted_tail = Some((active_block.id, start_off));
                 if checkpoint {
                     if self.should_persist(&mut info, true) {
                         if let Ok(mut idx_guard) = self.read_offset_index.write() {
-                            let _ =
-                                idx_guard.set(col_name.to_string(), active_block.id | TAIL_FLAG, 0);
+                            let _ = idx_guard.set(
+                                col_name.to_string(),
+                                active_block.id | TAIL_FLAG,
+                                start_off,
+                            );
                         }
                     }
                 }
